@@ -91,6 +91,9 @@ class Ocp(Stage):
                 augmented._var_original = self
                 self._var_augmented = augmented
                 augmented._placeholders = self._placeholders
+                # ... also for the sub-stages: placeholders created on them later on (e.g. after a solve) reach the transcribed copy
+                for s, s_augmented in zip(self.iter_stages(), augmented.iter_stages()):
+                    s_augmented._placeholders = s._placeholders
                 
                 return self._augmented._transcribed
         else:
